@@ -41,7 +41,10 @@ LEANCHECKER = True
 RULE = ("a case is (components, vary masks, pixel grid with masked pixels, errs/B/C variant) pushed through the real "
         "fitting.jacobian / lmfit_jacobian / ntwodgaussian_lmfit / covar_errors and through the Lean model; "
         "non-trivial = at least one free parameter and, for every component, amp != 1, sx != sy, theta != 0 "
-        "(so no derivative or scale factor vanishes); distinct by (kind, vary masks, variant)")
+        "(so no derivative or scale factor vanishes); distinct by (kind, vary masks, variant, insertion order of the "
+        "lmfit.Parameters entries: canonical, by quantity, reversed, delete+re-add, components first); plus a debug "
+        "slice: corpus and a sample of plain/B/C cases re-run with the root and 'Aegean' loggers at DEBUG must be "
+        "bit-identical")
 ASSUMPTIONS = [
     "theorems are about exact real arithmetic (R instance at ℝ); the code runs IEEE doubles: entries are compared "
     "with relative tolerance 1e-10 (+1e-13 of the row scale), matrix products with 1e-11 of sum|a||b|",
@@ -75,18 +78,42 @@ def fit():
 _PCACHE = {}
 
 
-def mk_params(comps, masks):
-    """lmfit.Parameters for the given components (list of 6-tuples) and vary masks (ints 0..63)"""
+ORDERS = ['canonical', 'by_quantity', 'reversed', 'readd', 'components_first']
+
+
+def insertion_names(n, order):
+    """the order in which the c<i>_<name> entries (and 'components') are inserted into the lmfit.Parameters
+       object.  The DOCUMENTED order of the Jacobian rows / of onesigma does not depend on it: it is
+       component-major, amp, xo, yo, sx, sy, theta (Model.freeList)."""
+    canon = [f'c{i}_{name}' for i in range(n) for name in PARS]
+    if order == 'by_quantity':
+        return [f'c{i}_{name}' for name in PARS for i in range(n)] + ['components']
+    if order == 'reversed':
+        return ['components'] + canon[::-1]
+    if order == 'components_first':
+        return ['components'] + canon
+    return canon + ['components']         # canonical, and the starting point of 'readd'
+
+
+def mk_params(comps, masks, order='canonical'):
+    """lmfit.Parameters for the given components (list of 6-tuples) and vary masks (ints 0..63), the entries
+       inserted in the given order ('readd': canonical, then c0_xo and the last component's amp are deleted and
+       added again, which moves them to the end of the object)"""
     import lmfit
     n = len(comps)
-    p = _PCACHE.get(n)
+    p = _PCACHE.get((n, order))
     if p is None:
         p = lmfit.Parameters()
-        for i in range(n):
-            for k, name in enumerate(PARS):
-                p.add(f'c{i}_{name}', 1.0, vary=True)
-        p.add('components', n, vary=False)
-        _PCACHE[n] = p
+        for name in insertion_names(n, order):
+            if name == 'components':
+                p.add('components', n, vary=False)
+            else:
+                p.add(name, 1.0, vary=True)
+        if order == 'readd':
+            for name in ('c0_xo', f'c{n - 1}_amp'):
+                del p[name]
+                p.add(name, 1.0, vary=True)
+        _PCACHE[(n, order)] = p
     for i, (c, m) in enumerate(zip(comps, masks)):
         for k, name in enumerate(PARS):
             q = p[f'c{i}_{name}']
@@ -221,8 +248,9 @@ def validate_translator(ctx, n):
 class Model:
     """one multi-component case and everything the implementation says about it"""
 
-    def __init__(self, comps, masks, data, errs_kind, b_kind, use_c, errs_val=None, beam=None):
+    def __init__(self, comps, masks, data, errs_kind, b_kind, use_c, errs_val=None, beam=None, order='canonical'):
         self.comps, self.masks, self.data = comps, masks, data
+        self.order = order
         self.mx, self.my = np.where(np.isfinite(data))
         self.npix = len(self.mx)
         self.errs_kind, self.b_kind, self.use_c = errs_kind, b_kind, use_c
@@ -255,13 +283,16 @@ class Model:
     def variant(self):
         return f"{self.errs_kind}/{self.b_kind}/{'C' if self.use_c else 'noC'}"
 
+    def params(self):
+        return mk_params(self.comps, self.masks, self.order)
+
     def case(self, kind, **kw):
         d = case_dict(kind, self.comps, self.masks, shape=list(self.data.shape),
                       masked=[[int(a), int(b)] for a, b in zip(*np.where(~np.isfinite(self.data)))],
                       errs_kind=self.errs_kind, b_kind=self.b_kind, use_c=self.use_c,
                       errs_val=(None if self.errs_val is None else
                                 (float(self.errs_val) if self.errs_kind == 'escalar' else list(map(float, self.errs_val)))),
-                      beam=(None if self.beam is None else list(map(float, self.beam))))
+                      beam=(None if self.beam is None else list(map(float, self.beam))), order=self.order)
         d.update(kw)
         return d
 
@@ -272,7 +303,7 @@ def model_from_case(c):
         data[a, b] = np.nan
     ev = c.get('errs_val')
     return Model([tuple(x) for x in c['comps']], list(c['masks']), data, c.get('errs_kind', 'enone'),
-                 c.get('b_kind', 'bnone'), c.get('use_c', False), ev, c.get('beam'))
+                 c.get('b_kind', 'bnone'), c.get('use_c', False), ev, c.get('beam'), c.get('order', 'canonical'))
 
 
 def rand_model(ctx, ncomp, big=False):
@@ -293,7 +324,8 @@ def rand_model(ctx, ncomp, big=False):
     bk = rng.choice(['bnone', 'bmat'])
     beam = (rng.uniform(0.7, 1.4), rng.uniform(0.5, 1.1), rng.uniform(-80, 80)) if bk == 'bmat' else None
     use_c = bk == 'bmat' and rng.random() < 0.5
-    return Model(comps, masks, data, ek, bk, use_c, ev, beam)
+    order = 'canonical' if rng.random() < 0.4 else rng.choice(ORDERS[1:])
+    return Model(comps, masks, data, ek, bk, use_c, ev, beam, order)
 
 
 def observed_assignment(fitting, m, params):
@@ -349,7 +381,7 @@ def run_models(ctx, models, tag='random', truth=False):
     kind_fail = 'spec' if truth else 'corr'
     lines, meta = [], []
     for m in models:
-        p = mk_params(m.comps, m.masks)
+        p = mk_params(m.comps, m.masks, m.order)
         x, y = m.mx.astype(float), m.my.astype(float)
         rec = dict(m=m, start=len(lines))
         ct = enc_comps(m.comps, m.masks)
@@ -498,9 +530,10 @@ def run_models(ctx, models, tag='random', truth=False):
                                      f"is {float(sig1[w])!r} (cond {cond:.3g})",
                                      dict(site='fitting.covar_errors', what='stderr-value', entry=PARS[q]))
                             break
-        nt = (tag, tuple(m.masks), m.variant()) if nontrivial(m.comps, m.masks) else None
+        nt = (tag, tuple(m.masks), m.variant(), m.order) if nontrivial(m.comps, m.masks) else None
         ctx.count(f'{tag}-{n}comp')
         ctx.count('variant-' + m.variant())
+        ctx.count('order-' + m.order)
         ctx.case(m.case(tag), nontrivial_key=nt, sample_every=53)
         for v in m.masks:
             ctx.extra.setdefault('_masks_seen', set()).add(v)
@@ -526,7 +559,8 @@ def index_sweep(ctx, mask_lists):
     """the stderr loop through the real covar_errors on a fixed well-conditioned island"""
     data = np.ones((16, 7))
     data[0, 0] = np.nan
-    models = [Model(SWEEP_COMPS[:len(ms)], list(ms), data, 'escalar', 'bnone', False, 0.7) for ms in mask_lists]
+    models = [Model(SWEEP_COMPS[:len(ms)], list(ms), data, 'escalar', 'bnone', False, 0.7,
+                    order=ORDERS[k % len(ORDERS)]) for k, ms in enumerate(mask_lists)]
     for chunk in range(0, len(models), 400):
         run_models(ctx, models[chunk:chunk + 400], tag='sweep')
 
@@ -557,6 +591,15 @@ CORPUS = [
     dict(kind='corpus', comps=[[3.0, 3.0, 3.5, 1.6, 1.1, 20.0], [5.0, 9.0, 3.0, 1.2, 1.9, -35.0]], masks=[6, 57],
          shape=[13, 7], masked=[[2, 2]], errs_kind='escalar', errs_val=0.3, b_kind='bmat', use_c=True,
          beam=[1.1, 0.8, 15.0]),
+    # lmfit.Parameters built quantity by quantity / reversed / with parameters deleted and re-added: the rows of
+    # jacobian and the entries of onesigma stay in the documented (component-major) order
+    dict(kind='corpus', comps=[[3.0, 3.0, 3.5, 1.6, 1.1, 20.0], [5.0, 9.0, 3.0, 1.2, 1.9, -35.0]], masks=[63, 63],
+         shape=[13, 7], masked=[], errs_kind='escalar', errs_val=1.0, b_kind='bnone', use_c=False, order='by_quantity'),
+    dict(kind='corpus', comps=[[3.0, 3.0, 3.5, 1.6, 1.1, 20.0], [5.0, 9.0, 3.0, 1.2, 1.9, -35.0]], masks=[39, 63],
+         shape=[13, 7], masked=[[1, 1]], errs_kind='escalar', errs_val=0.4, b_kind='bmat', use_c=True,
+         beam=[1.0, 0.7, -20.0], order='readd'),
+    dict(kind='corpus', comps=[[2.0, 4.0, 4.0, 3.0, 1.5, 30.0]], masks=[63], shape=[9, 9], masked=[],
+         errs_kind='enone', b_kind='bmat', use_c=False, beam=[0.9, 0.6, 40.0], order='reversed'),
 ]
 
 
@@ -568,6 +611,76 @@ def corpus_cases():
         except Exception:
             pass
     return out
+
+
+# ------------------------------------------------------------------ debug slice --------------
+
+def impl_bits(m):
+    """everything the implementation returns for one case, as bit patterns / exact values"""
+    fitting = fit()
+    p = m.params()
+    x, y = m.mx.astype(float), m.my.astype(float)
+    out = {}
+    with np.errstate(all='ignore'):
+        out['jacobian'] = np.asarray(fitting.jacobian(p, x, y), dtype=float).tobytes()
+        if any(m.masks):
+            out['lmfit_jacobian'] = np.asarray(fitting.lmfit_jacobian(p, x, y, errs=m.errs(), B=m.B), dtype=float).tobytes()
+        try:
+            fitting.covar_errors(p, m.data, errs=m.errs(), B=m.B, C=(m.C if m.use_c else None))
+            out['stderr'] = [None if p[f'c{i}_{n}'].stderr is None else f2h(p[f'c{i}_{n}'].stderr)
+                             for i in range(len(m.comps)) for n in PARS]
+        except Exception as e:
+            out['stderr'] = f'raised {type(e).__name__}'
+    return out
+
+
+class debug_logging:
+    """root logger and the 'Aegean' logger at DEBUG, output swallowed; restored on exit"""
+
+    def __enter__(self):
+        import logging
+        self.logging = logging
+        self.saved = []
+        for name in (None, 'Aegean'):
+            lg = logging.getLogger(name)
+            self.saved.append((lg, lg.level, list(lg.handlers), lg.propagate))
+            lg.handlers = [logging.NullHandler()]
+            lg.setLevel(logging.DEBUG)
+        self.disabled = logging.root.manager.disable
+        logging.disable(logging.NOTSET)
+        return self
+
+    def __exit__(self, *a):
+        for lg, level, handlers, prop in self.saved:
+            lg.handlers = handlers
+            lg.setLevel(level)
+            lg.propagate = prop
+        self.logging.disable(self.disabled)
+        return False
+
+
+def debug_slice(ctx, models):
+    """the same cases with debug logging on must give bit-identical derivatives and errors"""
+    for m in models:
+        ref = impl_bits(m)
+        with debug_logging():
+            dbg = impl_bits(m)
+        ctx.count('debug-slice-' + ('C' if m.use_c else ('B' if m.B is not None else 'plain')))
+        for k in ref:
+            if ref[k] != dbg.get(k):
+                detail = f"{k} differs between the default logging level and DEBUG ({m.variant()})"
+                if k == 'stderr' and isinstance(ref[k], list) and isinstance(dbg[k], list):
+                    j = next(i for i in range(len(ref[k])) if ref[k][i] != dbg[k][i])
+                    a, b = ref[k][j], dbg[k][j]
+                    detail = (f"c{j // 6}_{PARS[j % 6]}.stderr = {None if a is None else h2f(a)!r} at the default "
+                              f"logging level but {None if b is None else h2f(b)!r} with the 'Aegean' logger at DEBUG "
+                              f"({m.variant()})")
+                ctx.fail('spec', m.case('debug-slice', output=k), detail,
+                         dict(site='fitting.covar_errors' if k == 'stderr' else 'fitting.' + k,
+                              what='logging-dependence', output=k))
+                break
+        ctx.case(m.case('debug-slice'), nontrivial_key=('debug', tuple(m.masks), m.variant(), m.order)
+                 if nontrivial(m.comps, m.masks) else None)
 
 
 # ------------------------------------------------------------------ entry points ------------
@@ -683,6 +796,12 @@ def run(ctx):
             models.append(rand_model(ctx, ncomp, big=(not ctx.quick and k % 10 == 0)))
     for chunk in range(0, len(models), 100):
         run_models(ctx, models[chunk:chunk + 100])
+    # debug slice: corpus + a sample with the plain, the B and the C path of covar_errors
+    sample = [model_from_case(c) for c in corpus_cases()]
+    for path in ('plain', 'B', 'C'):
+        pick = [m for m in models if (path == 'C') == bool(m.use_c) and (path == 'plain') == (m.B is None)]
+        sample += pick[:(4 if ctx.quick else 30)]
+    debug_slice(ctx, sample)
     index_sweep(ctx, sweep_lists(ctx))
     bmatrix_contract(ctx)
     degenerate_probes(ctx)
@@ -833,6 +952,8 @@ def replay(ctx, rec):
         return search(ctx)
     if c.get('kind') == 'except-branch':
         return degenerate_probes(ctx)
+    if c.get('kind') == 'debug-slice':
+        return debug_slice(ctx, [model_from_case(c)])
     m = model_from_case(c)
     run_models(ctx, [m], tag='replay', truth=True)
     run_models(ctx, [m], tag='replay')
